@@ -24,7 +24,7 @@ class Cfg:
     regimes: tuple = ("allkey", "allkey", "mixed")
     special_leaves: bool = True  # doomed / identity / zero-column leaves
     loose_bounds: bool = True
-    sql_variants: tuple = ("plain", "plain", "renamed", "alias", "subquery", "where", "extra")
+    sql_variants: tuple = ("plain", "plain", "renamed", "alias", "subquery", "where", "extra", "shifted")
     iter_variants: tuple = ("plain", "plain", "custom", "mapping")  # payload class of iteration-engine leaves
     vmin: int = -3
     vmax: int = 3
